@@ -32,7 +32,7 @@ def shards(tier, seed):
 def requirements(tier):
     return {"trimmed_interval_checked": 1500, "trimmed_definition_checked": 1500, "krum_selection_checked": 1000, "krum_tie_plain_average_checked": 50, "too_few_rows_rejected": 100,
             "enough_rows_accepted": 100, "w_corruption_at_max_magnitude": 200, "w_krum_m_minus_f_minus_1_would_differ": 50, "w_all_b_rows_corrupted": 200,
-            "w_float32": 500, "w_krum_k_ge_2": 200, "w_krum_more_than_25_rows": 100}
+            "w_float32": 500, "w_krum_k_ge_2": 200, "w_krum_more_than_25_rows": 100, "w_trimmed_mean_64_or_more_rows": 100}
 
 
 def corrupt(rng, H, rows, scale):
@@ -61,6 +61,10 @@ def gen_case(rng, i):
     if which == "TrimmedMean":
         b = int(rng.integers(0, 4))
         m = int(rng.integers(2 * b + 1, 2 * b + 6))
+        if rng.random() < 0.12:
+            # many workers, few trimmed (a federated round): 64 .. 260 rows, b in {1, 2, 3}
+            b = int(rng.integers(1, 4))
+            m = int(rng.integers(64 * b, 64 * b + 70))
         H = rng.standard_normal((m, n)) * scale
         k = int(rng.integers(0, b + 1)) if rng.random() < 0.5 else b
         rows = [int(x) for x in rng.choice(m, size=k, replace=False)]
@@ -182,6 +186,8 @@ def check_case(case, ctx):
             ctx.count("w_krum_k_ge_2")
         if m > 25:
             ctx.count("w_krum_more_than_25_rows")
+    if a["name"] == "TrimmedMean" and m >= 64:
+        ctx.count("w_trimmed_mean_64_or_more_rows")
     if dname == "float32":
         ctx.count("w_float32")
     ctx.evaluated(fingerprint(case), nontrivial=big)
